@@ -422,9 +422,20 @@ def rule_hash(chk, reach):
                 else:
                     # feeds a for loop or another call: attribute to the enclosing for-loop if it heads one
                     hl = [l for l in loops if any(x is end for x in F.walk(l[1])) or F.strip(l[1]) is end]
+                    # the chain feeds `vec.extend(<chain>)`: the Vec is an ordered sink, fine when it is sorted afterwards
+                    feeds = [c2 for c2 in F.exprs(b["thir"], "Call") if short(c2.get("fn") or "") in ("extend", "append") and len(c2.get("args", [])) > 1
+                             and (F.strip(c2["args"][1]) is end or c2["args"][1] is end)]
                     if hl:
                         cls, detail = classify_loop(b, hl[0], loops)
                         rkey = (fname, "for %s %s" % ("HashMap" if "map::" in node["args"][0].get("ty", "") else "HashSet", head))
+                    elif feeds and not is_hash_ty(feeds[0]["args"][0].get("ty", "")):
+                        rv = F.leftmost_var(feeds[0]["args"][0])
+                        fp = field_path(feeds[0]["args"][0])
+                        if sorted_after(b, feeds[0], rv, fp):
+                            cls, detail = "sorted-after", "extends an ordered sink that is sorted afterwards"
+                        else:
+                            cls, detail = "ordered-sink-unsorted", "extends %s in hash order and no sort of it follows" % ((rv or {}).get("name"),)
+                        rkey = (fname, "for HashMap")
                     else:
                         cls, detail = "unknown-chain", "hash iterator consumed by %s" % names
                         rkey = (fname, "%s->%s" % (head, names[-1]))
